@@ -40,6 +40,7 @@ type Harness struct {
 	ifconv    bool
 	needTier  int // run only when tier >= needTier
 	budgetS   int // wall-clock budget in seconds (0 = default for the tier)
+	jobs      int // worker cap (0 = no cap)
 	bounds, outside, assumes, stubNotes []string
 }
 
@@ -675,6 +676,9 @@ func (e *Engine) RunHarness(h *Harness, tier int, jobs int, pinned map[string]In
 	var wg sync.WaitGroup
 	if pinned != nil {
 		jobs = 1
+	}
+	if h.jobs > 0 && jobs > h.jobs {
+		jobs = h.jobs
 	}
 	for j := 0; j < jobs; j++ {
 		wg.Add(1)
